@@ -237,6 +237,18 @@ fn binop_driver(t: &Tier, m: &mut Matrix, sink: &mut Sink, ops: &[&'static str],
             }
         }
     }
+    // full-length random products: a double carry out of one column of the schoolbook multiply needs
+    // both partial additions to overflow (about one random 4-word product in twenty)
+    if ops.contains(&"mul") {
+        for (lo, hi, reps) in [(25usize, 32usize, t.q(60, 400)), (49, 64, t.q(60, 400)), (97, 128, t.q(60, 400)), (193, 256, t.q(320, 2400)), (385, 512, t.q(24, 200))] {
+            for i in 0..reps {
+                let n = if i % 2 == 0 { hi } else { lo + rng.below(hi - lo + 1) };
+                let x = random_bits_uniform(&mut rng, n);
+                let y = random_bits_uniform(&mut rng, if i % 3 == 0 { n / 2 + 1 } else { n });
+                sink.emit(m.run(&Case::new("mul", x).y(YSpec::Bits(y)).forms(&FORMS6)));
+            }
+        }
+    }
     // dense small random cases (both operands short: every kind takes part)
     for _ in 0..t.q(200, 20000) {
         let n = rng.below(t.q(34, 48));
